@@ -26,12 +26,15 @@ RULE = (
     "parse the output completely (magic 2, batch_length == len-12, CRC over exactly bytes[21:], minimal varints, record "
     "length prefixes exact, no trailing bytes) and recover base offset = first record's, last offset delta = last-first, "
     "base timestamp = first record's ms, max timestamp = max ms, record count, every record's deltas/key/value/headers "
-    "and all batch parameters. One case in three is written after earlier writes failed part-way (a record with a str value "
+    "and all batch parameters. Concurrency: two threads write two different batches to their own buffers under a deterministic scheduler, one preemption swept over every executed kio source line; each output must equal the sequential one. One case in three is written after earlier writes failed part-way (a record with a str value "
     "or a str header value after 300+ good bytes; the same batch on sinks raising OSError at write call 1..9). Non-trivial = >=2 records with non-monotone offsets or timestamps, or a null "
     "key/value/header part; distinct by hash of the case."
 )
 
-_ZONES = [0, 0, 60, -300, 330, 765, "Europe/Berlin", "Europe/Berlin", "America/New_York", "Australia/Lord_Howe"]
+_ZONES = [0, 0, 60, -300, 330, 765, "Europe/Berlin", "Europe/Berlin", "America/New_York", "Australia/Lord_Howe",
+          # UTC offsets that are not whole minutes: fixed ones, and Liberia before 1972-01-07 (-0:44:30; the timestamps
+          # generated near 1970 fall into that period)
+          ("s", 2670), ("s", -2670), ("s", 1), ("s", -86399), "Africa/Monrovia"]
 # (zone, UTC instant in ms at which its clocks go back, size of the step in ms)
 _FALL_BACK = [("Europe/Berlin", 1635642000000, 3600000), ("America/New_York", 1636264800000, 3600000),
               ("Australia/Lord_Howe", 1617462000000, 1800000)]
@@ -103,8 +106,8 @@ def batch_cases(draw):
     }
 
 
-def build(case):
-    from kio.records.schema import NewRecordBatch, Record, RecordHeader
+def build_records(case) -> tuple:
+    from kio.records.schema import Record, RecordHeader
 
     recs = []
     for r in case["records"]:
@@ -117,6 +120,8 @@ def build(case):
                     import zoneinfo
 
                     dt = dt.astimezone(zoneinfo.ZoneInfo(r["tz"]))
+                elif isinstance(r["tz"], (list, tuple)):  # ("s", seconds): a UTC offset that is not a whole number of minutes
+                    dt = dt.astimezone(datetime.timezone(datetime.timedelta(seconds=r["tz"][1])))
                 else:
                     dt = dt.astimezone(datetime.timezone(datetime.timedelta(minutes=r["tz"])))
             except Exception:
@@ -125,9 +130,15 @@ def build(case):
             dt = dt + datetime.timedelta(microseconds=r["us"])
         recs.append(Record(attributes=r["attributes"], timestamp=dt, offset=r["offset"], key=r["key"], value=r["value"],
                            headers=tuple(RecordHeader(key=k, value=v) for k, v in r["headers"])))
+    return tuple(recs)
+
+
+def build(case, records: tuple | None = None):
+    from kio.records.schema import NewRecordBatch
+
     return NewRecordBatch(producer_id=case["producer_id"], producer_epoch=case["producer_epoch"],
                           partition_leader_epoch=case["partition_leader_epoch"], base_sequence=case["base_sequence"],
-                          records=tuple(recs), attributes=case["attributes"])
+                          records=build_records(case) if records is None else records, attributes=case["attributes"])
 
 
 def aligned(case: dict, target: int) -> dict:
@@ -357,8 +368,67 @@ def _worker(task):
     return rep
 
 
+def _concurrency_cases() -> list[dict]:
+    out = []
+    for seed in (1, 2):
+        out.append({"producer_id": seed, "producer_epoch": seed, "partition_leader_epoch": seed, "base_sequence": seed, "attributes": 0, "prelude": None,
+                    "records": [{"attributes": 0, "ts_ms": 1700000000000 * seed + 7 * i, "tz": 0 if i else 60, "offset": 10 * seed + i,
+                                 "key": None if i == 1 else b"k%d" % (seed * 10 + i), "value": bytes([64 + seed]) * (4 + 3 * i + seed),
+                                 "headers": [(b"h", bytes([seed, i]))] if i != 2 else []} for i in range(3)]})
+    return out
+
+
+def _concurrency_worker(task):
+    """Two threads write two different batches to their own buffers under a deterministic scheduler; ONE preemption is
+    swept over every source line of kio the writes execute (this shard: steps start, start+stride, ..)."""
+    import os
+
+    import kio
+    from kio.records.writers import write_new_batch
+
+    from ..sched import sweep_one_preemption
+
+    start, stride = task
+    rep = Report(prop=ID, level="exploration", rule=RULE)
+    cases = _concurrency_cases()
+
+    def make_programs():
+        def prog(case):
+            def body():
+                buf = io.BytesIO()
+                write_new_batch(buf, build(case))
+                return buf.getvalue()
+            return body
+        return [prog(c) for c in cases]
+
+    want = None
+    for label, r in sweep_one_preemption(make_programs, os.path.dirname(kio.__file__), stride=stride, start=start):
+        rep.evaluations += 2
+        rep.labels["concurrent_schedules"] += 1
+        rep.nontrivial.add(case_hash(("concurrent", label)))
+        if r.errors:
+            tid, e = r.errors[0]
+            rep.add_failure(Failure(f"concurrent:write-raised:{K.exc_signature(e)}", f"{label}: thread {tid} raised {e!r:.300} while another thread wrote a "
+                                    f"different batch; preempted at {r.preempted_at}", {"concurrent": True}, 1))
+            break
+        if label == "sequential":
+            want = r.results
+            continue
+        if r.results != want:
+            tid = 0 if r.results[0] != want[0] else 1
+            rep.add_failure(Failure("concurrent:write-differs", f"{label}: thread {tid} wrote {r.results[tid].hex()[:200]}, alone it writes {want[tid].hex()[:200]}; "
+                                    f"preempted at {r.preempted_at}", {"concurrent": True}, 1))
+            break
+    return rep
+
+
 def run(ctx: Ctx) -> Report:
     total = Report(prop=ID, level="exploration", rule=RULE)
+    for rep in pool_map(_concurrency_worker, [(i, 16) for i in range(16)]):
+        total.merge(rep)
+    for case in _concurrency_cases():  # the fixed batches of the concurrency stage are themselves checked against the oracle
+        for sig, msg in check(case):
+            total.add_failure(Failure(sig, msg, case_to_json(case), 1))
     n_total = 8000 if ctx.quick else 200000
     shards = 16
     tasks = [(ctx.subseed("shard", i), n_total // shards) for i in range(shards)]
@@ -372,4 +442,9 @@ def run(ctx: Ctx) -> Report:
 
 
 def replay(case):
+    if case.get("concurrent"):
+        out = []
+        for i in range(4):
+            out += [(f.signature, f.message) for f in _concurrency_worker((i, 4)).failures.values()]
+        return out
     return check(case_from_json(case))
